@@ -5,7 +5,7 @@ V = os.path.dirname(os.path.dirname(os.path.abspath(__file__)))
 props = [json.loads(l) for l in open(os.path.join(V, "properties.jsonl"))]
 TV, MC, EX = "translation_validation", "model_checking", "exploration"
 CHECKS = {
- "C01": (TV, "TLC refinement check: M6502 execution of emitted code vs CSem source semantics (SrcEval+Refine)", "6.C01",
+ "C01": (TV, "TLC refinement check: M6502 execution of emitted code vs CSem source semantics (SrcEval+Refine); FlagProv.tla validates the traces of hook H3 (the generator's belief about the flags wherever it relies on it), unjustified beliefs direct a second, denser execution", "6.C01",
          "Per generated program (GenProg.tla families, exhaustive in the thorough tier) TLC executes the code the real compiler emitted on the 6502 specification from boundary inputs x 2 ambient configurations and compares the halted state with the state the CSem specification prescribes; an alarm means no reading of the C dialect gives the observed result. Bounded to the generated vocabulary and inputs.",
          "Trusted: TLC, M6502/Enc6502/CSem (self-tested by ASSUMEs), harness renderer/linker/layout. Known defect classes are attributed by program shape (known_findings.json)."),
  "C02": (TV, "TLC sequential-product refinement: -O0 code vs -O1/-O2/-O3 code on M6502 (Refine pair mode); Peephole.tla (optimize() as coded) model-checked and replayed into the real optimize()", "6.C02",
@@ -27,7 +27,7 @@ CHECKS = {
          "GenCond.tla enumerates every well-nested directive sequence up to the bound (exhaustive over the minimal condition alphabet, simulated over the rich one) together with the outcome the reference semantics CppRef prescribes (kept lines, final macro table, #error); each is run through the real preprocessor and compared. TLC also checks, on every sequence, that the implementation-shaped three-state machine CppImpl equals CppRef, and validates recorded H2 event traces against CppImpl.",
          "Trusted: TLC, CppRef (first-true-branch rule), renderer of directive lines. Condition operators limited to those the property names."),
  "C09": (MC, "TLC: GenLit generator + Lexer.tla decoding oracle; replay of literals in nine contexts into the real compiler", "6.C09",
-         "GenLit.tla enumerates literal bodies (all bodies of <=2 symbols quick, <=3 thorough) over Lexer.tla's alphabet - every escape of the property, escaped quotes/backslashes, comment markers, #, @, macro names - in nine contexts (initialiser, pointer table, adjacent concatenation, call argument, asm, two per line, after code/before comment, inside #if, character constant); the stored bytes must equal Lexer!LiteralBytes.",
+         "GenLit.tla enumerates literal bodies (all bodies of <=2 symbols quick, <=3 thorough) over Lexer.tla's alphabet - every escape of the property, escaped quotes/backslashes, comment markers, #, @, macro names - in thirteen contexts (initialiser, pointer table, adjacent concatenation, call argument, two calls, array subscript, asm, two per line, after code/before comment, inside #if, after a skipped region, after #else, character constant); the stored bytes must equal Lexer!LiteralBytes. CppScan.tla (the scanner that extracts literals, as coded; see C11): the literals extracted from every text of up to 6/7 characters must be the textbook scanner's.",
          "Trusted: Lexer.tla symbol table (self-tested), renderer. Literals the compiler refuses are not judged."),
  "C08": (MC, "TLC: GenMacro generator + MacroRef token-level expansion oracle; replay into the real preprocessor (hook H2)", "6.C08",
          "GenMacro.tla enumerates ordered subsets of nine definitions (object-like, function-like with 0-3 parameters, bodies using earlier macros, parameter names occurring inside longer identifiers), #undef/redefinition tails, source vs -D origin, 0-198 filler macros around the 100-macro chunk boundaries, and 45 use sites; the preprocessed token sequence must equal MacroRef!Expand for a tight and a spaced rendering.",
@@ -35,8 +35,8 @@ CHECKS = {
  "C10": (MC, "TLC: GenCalc generator + Calc.tla C-grammar evaluator; replay of constant expressions in five constant positions into the real compiler", "6.C10",
          "GenCalc.tla enumerates token strings (all ordered pairs of the 17 binary operators over six literal triples, both parenthesisations, unary operators in every operand position, chains, nested ?:, hex/octal/character literals, overflow and division-by-zero edges) with the value Calc.tla assigns; each is compiled in initialiser, array size, array element, aligned() and asm size position. Values that fit must be exact; division by zero and >31-bit values must be errors; never a crash.",
          "Trusted: Calc.tla (self-tested). >> of negatives and shift counts >= 16 are not decided; 17..31-bit values may be rejected or exact."),
- "C11": (MC, "TLC: GenDecor generator with Lexer.tla neutrality invariant; plain vs decorated compilation compared, differences decided by Refine.tla on M6502", "6.C11",
-         "GenDecor.tla enumerates (program, gap between two adjacent tokens, decoration) over 21 decorations (spaces, tabs, newlines, CR-LF, splices, block and line comments containing quotes, //, /*, directives, URLs) and checks with the reference scanner of Lexer.tla that each is token-neutral; plain and decorated programs (corpus: GenProg samples and the repository's own test inputs) are compiled at -O0/-O1, and plain programs with --insert-code / -W all: declared variables, functions and emitted instruction lines must be equal; where emitted text differs, both codes are executed by TLC on M6502.",
+ "C11": (MC, "TLC: GenDecor generator with Lexer.tla neutrality invariant; plain vs decorated compilation compared, differences decided by Refine.tla on M6502; Layer-2 model CppScan.tla of the scanner as coded, model-checked against the textbook scanner and replayed into cpp::process", "6.C11",
+         "GenDecor.tla enumerates (program, gap between two adjacent tokens, decoration) over 21 decorations (spaces, tabs, newlines, CR-LF, splices, block and line comments containing quotes, //, /*, directives, URLs) and checks with the reference scanner of Lexer.tla that each is token-neutral; plain and decorated programs (corpus: GenProg samples and the repository's own test inputs) are compiled at -O0/-O1, and plain programs with --insert-code / -W all: declared variables, functions and emitted instruction lines must be equal; where emitted text differs, both codes are executed by TLC on M6502. CppScan.tla: every text of up to 6/7 characters over {name char, space, /, *, \", \\, ', line feed}: emitted text, literals and comment state of the scanner as coded equal the textbook scanner's outside three named deviation classes; the texts are preprocessed by the real code and compared with both.",
          "Trusted: token splitter choosing the gaps; gaps inside directive lines are not decorated."),
  "C12": (MC, "TLC: GenGraph generator + CallGraph.tla predicates (work-list reachability) over the published tree / in-use set / emitted JSRs", "6.C12",
          "GenGraph.tla enumerates acyclic call graphs over main,f1,f2,f3 with every call in a syntactic position (statement, condition, argument, loop body, return, ternary, switch case) and attributes (inline subsets, interrupt handler, unused function, prototypes first); CallGraph.tla checks: every source call is in the tree, every emitted JSR is reachable through it, in-use = Reach(tree, main + interrupts) exactly and covers the source-reachable set.",
@@ -64,8 +64,8 @@ PENDING = set()
 NA_REASON = "check not built yet (work in progress; see DESIGN.md section 6)"
 m = {"version": 1,
      "setup_cmd": "cd /verif && python3 bin/setup.py",
-     "hooks": {"guard": "cc6502_verif", "enable": "--cfg cc6502_verif --cfg cc6502_verif_trace via /verif/harness/.cargo/config.toml rustflags (the harness builds /repo as a path dependency with the hooks on; cc6502_verif guards H1 verif_lines and verif::preprocess, cc6502_verif_trace the per-line event log of cpp::process, which the harness drops automatically if it no longer compiles)",
-               "baseline_off_cmd": "cd /repo && cargo test --workspace --no-fail-fast --offline", "source_commits": ["c1a4399", "c761bf0"], "add_only": True},
+     "hooks": {"guard": "cc6502_verif", "enable": "--cfg cc6502_verif --cfg cc6502_verif_trace --cfg cc6502_verif_flags via /verif/harness/.cargo/config.toml rustflags (the harness builds /repo as a path dependency with the hooks on; cc6502_verif guards H1 verif_lines and verif::preprocess, cc6502_verif_trace the per-line event log of cpp::process (H2), cc6502_verif_flags the log of the places where the code generator relies on its belief about the processor flags (H3); the harness drops H2 and H3 automatically if they no longer compile)",
+               "baseline_off_cmd": "cd /repo && cargo test --workspace --no-fail-fast --offline", "source_commits": ["c1a4399", "c761bf0", "0b01983"], "add_only": True},
      "engines": [{"name": "tlc", "path": "/opt/veriftools/tla/tla2tools.jar", "serves_properties": sorted(CHECKS), "kind_free_text": "TLA+ specifications under /verif/spec checked by TLC; bound to the code by replay (generator specs -> real compiler) and validation (emitted artefacts / hook traces -> oracle specs)"},
                  {"name": "vharness", "path": "/verif/harness", "serves_properties": sorted(CHECKS), "kind_free_text": "Rust batch driver on the public API of /repo (path dependency, hooks H1/H2 behind cfg cc6502_verif)"}],
      "checks": [], "not_applicable": [],
